@@ -86,8 +86,8 @@ def inventory():
 # templates
 # ---------------------------------------------------------------------------------------------
 
-def lookup(vnode_id, path: bytes):
-    return [A('VFS_LOOKUP', q, d) for q, d in wire.lookup_chunks(vnode_id, path)]
+def lookup(vnode_id, path: bytes, word=8):
+    return [A('VFS_LOOKUP', q, d) for q, d in wire.lookup_chunks(vnode_id, path, word)]
 
 
 def syscall(name, start_words, end_words, nested=()):
@@ -107,13 +107,13 @@ def gen_syscall(rng, name, nested=(), error=None):
     return syscall(name, s, e, nested)
 
 
-def global_string(str_id, text: bytes, debugid=0x1f080000):
-    return [A('TRACE_STRING_GLOBAL', q, d) for q, d in wire.global_string_chunks(debugid, str_id, text)]
+def global_string(str_id, text: bytes, debugid=0x1f080000, word=8):
+    return [A('TRACE_STRING_GLOBAL', q, d) for q, d in wire.global_string_chunks(debugid, str_id, text, word)]
 
 
-def thread_name(text: bytes, prev=False):
+def thread_name(text: bytes, prev=False, word=8):
     code = 'TRACE_STRING_THREADNAME_PREV' if prev else 'TRACE_STRING_THREADNAME'
-    return [A(code, q, d) for q, d in wire.simple_string_chunks(text[:64])]
+    return [A(code, q, d) for q, d in wire.simple_string_chunks(text[:64], word)]
 
 
 def name32(text: bytes):
